@@ -734,7 +734,7 @@ class History:
                     "commands %s did not run although their definition, a source they read or one of their outputs changed" % bad_must if bad_must else
                     "commands %s ran twice in one build" % dup if dup else "commands %s ran although the target does not reach them" % unreachable)
             # outputs are correct (checked above): over/under-execution, reported without claiming a stale output
-            raise HistoryFailure("c08-run-set", what + " (outputs nevertheless equal the clean build's)", bool(bad_must))
+            raise HistoryFailure("c08-run-set", what + " (outputs nevertheless equal the clean build's)", False)
         if not muts and self.last_ok_target == tname and ran:
             rp.update(ran=ran)
             self.rp = rp
